@@ -281,9 +281,14 @@ fn write_scenario(r: &mut Rng, base: Option<&Vec<u8>>, force: Option<u64>) -> Ve
     for j in 0..n {
         let fam = match force { Some(f) if j == at => f, _ => r.below(NFAM) };
         family_calls(r, fam, &mut calls);
+        // `Write::flush` on a stored entry / in extra-data mode / with no entry open: one `flush` of the sink, which
+        // fails like every other I/O call
+        if r.chance(1, 3) { calls.push("fl".into()); }
     }
     calls.push(if r.chance(3, 4) { "fin".into() } else { "drop".into() });
     if r.chance(1, 3) && calls.last().unwrap() == "fin" { calls.push("fin".into()); }
+    // ... and on the closed writer (BrokenPipe, no I/O), also after a finish that failed under the fault
+    if r.chance(1, 3) && calls.last().unwrap() == "fin" { calls.push("fl".into()); }
     calls
 }
 
@@ -356,7 +361,7 @@ fn count_families(g: &mut GenOut, calls: &[String], lines: u64) {
         let t = c.split(',').next().unwrap_or("");
         let fam = match t {
             "ap" => "append-base", "sf" => "file", "dir" => "dir", "sym" => "symlink", "c" => "comment", "sx" => "extra-data",
-            "el" => "extra-central", "sa" => "aligned", "rc" => "rawcopy", "drop" => "drop",
+            "el" => "extra-central", "sa" => "aligned", "rc" => "rawcopy", "drop" => "drop", "fl" => "flush",
             "fin" if j > 0 && calls[j - 1] == "fin" => "fin-twice",
             _ => continue,
         };
@@ -623,7 +628,7 @@ impl Stream for Fault {
 
     fn gen(&self, seed: u64, tier: &str) -> GenOut {
         let mut g = GenOut::default();
-        g.rule = "scenarios: (read) open + read every entry of small stored archives from the independent builder (prefix, ZIP64 end records, descriptors, comments) and the writer; (write) stored call sequences incl. directories, symlinks, extra data (local and central-only), comments, aligned entries, raw copies into the faulting sink, finish/drop, second finish, and append onto bases (writer-made and from the independent builder) - one `fam.<family>` counter each; compressing / ZipCrypto entries with the codec tables; for each scenario the fault-free run and then a hard error injected at EVERY I/O call index k (exhaustive per scenario), its io::ErrorKind rotating over 8 kinds incl. Interrupted (`kind.*` counters; scenarios that open an archive: every k also with InvalidInput, the kind get_directory_counts inspects; Interrupted is compared with the model on the streaming ops - M.retried - and judged by the oracle alone on fault.read / fault.write); (stream) read_zipfile_from_stream with a consumer that asks for `consume` bytes of each entry and drops it, compared call by call with Model.streamEntryCI (stored entries exact; deflate / bzip2 / zstd entries with the decoders' measured pull pattern pulled= / cbuf=; one nested-archive scenario behind 64 KiB drain reads = K-J, one incompressible entry spanning several decoder pulls and drain reads), and the same streams through ZipStreamReader::visit (fault.visit, Model.visitFile / drainE / visitCentral: no known finding there). non-trivial = a fault run (k given)".into();
+        g.rule = "scenarios: (read) open + read every entry of small stored archives from the independent builder (prefix, ZIP64 end records, descriptors, comments) and the writer; (write) stored call sequences incl. directories, symlinks, extra data (local and central-only), comments, aligned entries, raw copies into the faulting sink, Write::flush (stored entries, extra-data mode, closed writer), finish/drop, second finish, and append onto bases (writer-made and from the independent builder) - one `fam.<family>` counter each; compressing / ZipCrypto entries with the codec tables; for each scenario the fault-free run and then a hard error injected at EVERY I/O call index k (exhaustive per scenario), its io::ErrorKind rotating over 8 kinds incl. Interrupted (`kind.*` counters; scenarios that open an archive: every k also with InvalidInput, the kind get_directory_counts inspects; Interrupted is compared with the model on the streaming ops - M.retried - and judged by the oracle alone on fault.read / fault.write); (stream) read_zipfile_from_stream with a consumer that asks for `consume` bytes of each entry and drops it, compared call by call with Model.streamEntryCI (stored entries exact; deflate / bzip2 / zstd entries with the decoders' measured pull pattern pulled= / cbuf=; one nested-archive scenario behind 64 KiB drain reads = K-J, one incompressible entry spanning several decoder pulls and drain reads), and the same streams through ZipStreamReader::visit (fault.visit, Model.visitFile / drainE / visitCentral: no known finding there). non-trivial = a fault run (k given)".into();
         let nscen = if tier == "thorough" { 2000 } else { 80 };
         // a writer-made archive: a plain call sequence, finished
         let finished = |r: &mut Rng| -> Vec<u8> {
